@@ -25,6 +25,7 @@ ALIAS_TABLES = [
 
 
 def corpus(R):
+    """(inputs, n): the first n inputs are delivered in all four ways, the rest (a larger family) as a string, every 16th in all ways"""
     srcs = chargen.strings(R, chargen.SHELL_ALPHA, 3 if R.tier == "quick" else 4)
     rec = c03.gen(R, 3 if R.tier == "quick" else 4, False, name="recbfs")
     srcs += [c["src"] for c in rec]
@@ -35,21 +36,26 @@ def corpus(R):
         srcs.append(c["src"])
         srcs += [v["src"] for v in c["variants"] if v["kind"] in ("comment", "continuation", "semi2nl", "blankline", "comment-eof")]
     srcs += ["<<\\", "cat <<E\n\nx\nE\n", "a \\", "cat <<-E\n\tx\n\tE\n", "f() echo '" + "x" * 60, "`a | ", "$((", "((", "${", "a | | $(\n"]
-    return list(dict.fromkeys(srcs))
+    srcs = list(dict.fromkeys(srcs))
+    n = len(srcs)
+    # substitution openers / closers: longer strings over a small alphabet (unbalanced ` $( ( ) followed by operators)
+    fam = chargen.strings(R, ["a", "`", "$", "(", ")", "&", ";", "NL"], 5 if R.tier == "quick" else 6, name="closers")
+    srcs = list(dict.fromkeys(srcs + fam))
+    return srcs, n
 
 
 def run(R):
     R.rule = ("cases = (input, delivery, panicnil, aliases): every string up to N characters over 18 shell-significant characters, every "
-              "viable token prefix + one token / broken word, single-token mutants of accepted strings, derived programs and layout "
+              "viable token prefix + one token / broken word, every string up to 5 characters over a ` $ ( ) & ; newline, single-token mutants of accepted strings, derived programs and layout "
               "variants x {string, bytes, reader, scanner} x {panicnil=0, panicnil=1} x {no aliases, 9 alias tables incl. cycles}; "
               "distinct_nontrivial = distinct inputs that contain an operator, a quote or an expansion")
     R.assumptions = ["workers are separate processes; a watchdog of 5 s per parse reports a hang; a dead worker's batch is bisected",
                      "alias tables are applied to a seeded sample of the corpus (every input gets the no-alias runs)"]
-    srcs = corpus(R)
+    srcs, nfull = corpus(R)
     rnd = random.Random(R.seed)
     cases = []
     for i, s in enumerate(srcs):
-        for src in ("string", "bytes", "reader", "scanner"):
+        for src in (("string", "bytes", "reader", "scanner") if i < nfull or i % 16 == 0 else ("string",)):
             cases.append(dict(id="%d|%s|" % (i, src), src=s, source=src))
     sample = rnd.sample(range(len(srcs)), min(len(srcs), 3000 if R.tier == "quick" else 40000))
     for n, i in enumerate(sample):
